@@ -17,6 +17,8 @@ OpsWeak == OpsCore \cup {"Downgrade", "Upgrade", "UpgradeStored", "WeakClone", "
 OpsWeakQ == {"New", "CloneRoot", "DropRoot", "AdoptStore", "TakeUnadopt", "DropStored", "Store",
              "Downgrade", "Upgrade", "UpgradeStored", "WeakDrop", "StoreWeak"}
 CapsS == [strong |-> 2, stored |-> 1, rec |-> 1, weak |-> 1, storedW |-> 1, over |-> TRUE, elide |-> TRUE, scripted |-> 1]
+CapsE == [strong |-> 2, stored |-> 1, rec |-> 1, weak |-> 1, storedW |-> 1, over |-> FALSE, elide |-> TRUE, scripted |-> 1]
+CapsE3 == [strong |-> 3, stored |-> 2, rec |-> 2, weak |-> 1, storedW |-> 1, over |-> FALSE, elide |-> TRUE, scripted |-> 1]
 CapsS3 == [strong |-> 3, stored |-> 2, rec |-> 2, weak |-> 1, storedW |-> 1, over |-> TRUE, elide |-> TRUE, scripted |-> 1]
 Caps2 == [strong |-> 3, stored |-> 2, rec |-> 2, weak |-> 1, storedW |-> 1, over |-> FALSE, elide |-> FALSE, scripted |-> 1]
 CapsQ == [strong |-> 2, stored |-> 1, rec |-> 1, weak |-> 1, storedW |-> 1, over |-> FALSE, elide |-> FALSE, scripted |-> 1]
@@ -60,6 +62,8 @@ MCNext ==
      /\ (EmitCover > 0 /\ RandomElement(1..EmitCover) = 1) => PrintT(<<"SCRIPT", ToJson(hist')>>)
   \/ /\ Micro
      /\ hist' = hist
+     \* behaviours that end in a process abort are printed (sampled) as scripts for child mode
+     /\ (ctl'.mode = "aborted" /\ RandomElement(1..10) = 1) => PrintT(<<"ABORT", ToJson(hist)>>)
 
 MCSpec == MCInit /\ [][MCNext]_<<vars, hist>>
 
@@ -80,13 +84,13 @@ MC_C06 == Cex("C06", C06)
 MC_C08 == Cex("C08", C08)
 MC_C14 == Cex("C14", C14)
 MC_C16 == Cex("C16", C16)
-MC_C12 == Cex("C12", C12)
+MC_C12 == Cex("C12", C12 /\ C01 /\ C03 /\ C05)
 MC_C13 == Cex("C13", C13)
 MC_C13x == Cex("C13x", C13x)
 \* C10: the guarantees C01-C06 with re-entrant destructors, and no internal borrow conflict
 MC_C10 == Cex("C10", C01 /\ C02 /\ C03 /\ C04 /\ C05 /\ C06)
 \* C11: a panicking destructor: nothing dies twice, nothing reachable is harmed, Weak reports dead
-MC_C11 == Cex("C11", C01 /\ C02 /\ C05 /\ ctl.mode # "aborted")
+MC_C11 == Cex("C11", C01 /\ C02 /\ C05 /\ C06 /\ C08 /\ ctl.mode # "aborted")
 
 \* simulation mode: a behaviour is cut (and printed as one script) after SimLen calls
 CONSTANTS SimLen
